@@ -61,24 +61,53 @@ LAYOUTS = {
 # Module-level mutable state of the modules under test (a memo dict, an lru_cache a refactoring may add): every
 # path must start from the state of a freshly started process, otherwise values (and proxies) of one path leak
 # into the next one and re-execution is no longer deterministic.  Pristine copies are taken at import time.
-_MODULES = (SM, SU, MD, QM)
+def modules_under_test():
+    """every loaded module of aioslsk.shares.* plus aioslsk.search.model"""
+    import sys
+    return [m for n, m in sorted(sys.modules.items())
+            if m is not None and (n == 'aioslsk.shares' or n.startswith('aioslsk.shares.') or n == 'aioslsk.search.model')]
+
+
 _PRISTINE = {}
-for _m in _MODULES:
+for _m in modules_under_test():
     for _n, _v in list(_m.__dict__.items()):
         if not _n.startswith('__') and type(_v) in (dict, list, set):
             _PRISTINE[(_m.__name__, _n)] = (_v, type(_v)(_v))
 
 
+def _caches_of(owner_dict):
+    """objects with cache_clear() (functools.cache / lru_cache wrappers) among the values of a module or class
+    dict, looking through staticmethod / classmethod / property / cached-function attributes"""
+    for v in list(owner_dict.values()):
+        cands = [v, getattr(v, '__func__', None), getattr(v, 'fget', None), getattr(v, 'fset', None), getattr(v, 'func', None),
+                 getattr(v, '__wrapped__', None)]
+        for f in cands:
+            if f is not None and callable(getattr(f, 'cache_clear', None)) and not isinstance(f, type):
+                yield f
+
+
 def reset_module_state():
+    """every path (and replay) starts like a freshly started process: module-level containers back to their
+    import-time content, every functools cache reachable from the module dicts and the class dicts of the modules
+    under test emptied.  A memo introduced by a change would otherwise keep objects (and proxies) of one path alive
+    in the next one: its keys have constant hashes and forking ==, which breaks deterministic re-execution."""
     for obj, snap in _PRISTINE.values():
         obj.clear()                 # no comparison with the old content: it may hold proxies of the previous path
         (obj.update if type(obj) in (dict, set) else obj.extend)(snap)
-    for m in _MODULES:
-        for n, v in list(m.__dict__.items()):
-            if type(v) in (dict, list, set) and not n.startswith('__') and (m.__name__, n) not in _PRISTINE:
+    n = 0
+    for m in modules_under_test():
+        for name, v in list(m.__dict__.items()):
+            if type(v) in (dict, list, set) and not name.startswith('__') and (m.__name__, name) not in _PRISTINE:
                 v.clear()           # a container created after import (by a function of the module)
-            elif callable(getattr(v, 'cache_clear', None)) and getattr(v, '__module__', None) == m.__name__:
-                v.cache_clear()
+        for f in _caches_of(m.__dict__):
+            f.cache_clear()
+            n += 1
+        for v in list(m.__dict__.values()):
+            if isinstance(v, type) and getattr(v, '__module__', None) == m.__name__:
+                for f in _caches_of(vars(v)):
+                    f.cache_clear()
+                    n += 1
+    return n
 
 
 def _isinstance(obj, cls):
@@ -410,7 +439,12 @@ def judge(c, items, paths, result, tokens, mx, sig, tag=''):
     """the clauses of the property for one query result"""
     k = len(result)
     ids = [id(x) for x in result]
-    c.check(len(set(ids)) == k and all(any(x is it for it in items) for x in result), 'results_are_distinct_shared_files', sig=sig)
+    # no file twice: neither the same object nor two objects for the same file
+    rp = [item_path(x) for x in result]
+    twice = _or(sstr.eq(a, b) for a, b in itertools.combinations(rp, 2))
+    c.check(_and([len(set(ids)) == k, _not(twice)]), 'results_are_distinct_shared_files', sig=sig, info=tag)
+    # what is returned is what the index holds for a file that is on disk (`items`: SharedDirectory.items now)
+    c.check(all(any(x is it for it in items) for x in result), 'returned_file_is_in_the_index', sig=sig, info=tag)
     c.check(k <= mx, 'capped_at_max_results', sig=sig)
     for i, item in enumerate(items):
         m, _ = r_query_cached(tokens, paths[i])
@@ -454,20 +488,25 @@ def h_query(c, query, names, layout='flat', second=None, history='index'):
             with Disk(c, sm, dirs, fnames, layout) as disk:
                 disk.present = {i: 1.0 for i in range(len(fnames)) if not (history == 'appeared' and i == last)}
                 disk.scan_all()
-                if history == 'vanished':
-                    del disk.present[last]
-                elif history == 'appeared':
-                    disk.present[last] = 1.0
-                elif history == 'changed':
-                    disk.present[last] = 2.0
                 if history != 'scan':
+                    # searches arrive between scans: the same queries BEFORE the change on disk (the items are looked at by
+                    # the query code).  Nothing of the harness refers to a SharedItem once _ask has returned.
+                    _ask(c, sm, disk, dirs, paths, queries, toks, mx, 'before', history)
+                    if history == 'vanished':
+                        del disk.present[last]
+                    elif history == 'appeared':
+                        disk.present[last] = 1.0
+                    else:
+                        disk.present[last] = 2.0
                     disk.scan_all()
-                found = disk.live_items()
-            # indexing half, only as far as the query needs it: every file on disk is in exactly one directory's items
-            c.check(all(len(h) == 1 for _, h in found) and sum(len(d.items) for d in dirs) == len(found),
-                    'scan_leaves_exactly_the_files_on_disk', sig=[history])
-            items = [h[0] for _, h in found if h]
-            paths = [paths[i] for i, h in found if h]
+                    _collect()              # what CPython does sooner or later: items nobody refers to are gone
+                if c.symbolic:
+                    term_map_keys_sound(sm)
+                c.reach('indexed')
+                _ask(c, sm, disk, dirs, paths, queries, toks, mx, 'after' if history != 'scan' else '', history)
+            if c.symbolic:
+                term_map_keys_sound(sm)
+            return
         else:
             raise symex.HarnessError(history)
         if c.symbolic:
@@ -475,20 +514,54 @@ def h_query(c, query, names, layout='flat', second=None, history='index'):
         c.reach('indexed')
         if not c.symbolic:
             c.note('searchable files', [''.join(p) for p in paths], 'queries', [q for _, q in queries], 'max_results', mx)
-        for qi, ((tpl, q), tk) in enumerate(zip(queries, toks)):
-            sig = [query_kinds(tpl)]
-            tag = f'query {qi}: '
-            result = run_query(c, sm, q, sig, tag)
-            if result is None:
-                continue
-            c.reach('queried')
-            if result:
-                c.reach('some_file_returned')
-            if not c.symbolic:
-                c.note(tag, 'returned', sorted(it.get_query_path() for it in result))
-            judge(c, items, paths, result, tk, mx, sig, tag)
+        _run_queries(c, sm, items, paths, queries, toks, mx, '')
         if c.symbolic:
             term_map_keys_sound(sm)
+
+
+_GC_FROZEN = False
+
+
+def _collect():
+    """full garbage collection.  The first call of a process moves everything that exists by then (imported modules,
+    z3 wrappers, harness caches) to the permanent generation (gc.freeze), so that the collections after it only
+    look at objects created since: 13 ms -> microseconds per path."""
+    import gc
+    global _GC_FROZEN
+    if not _GC_FROZEN:
+        gc.collect()
+        gc.freeze()
+        _GC_FROZEN = True
+    gc.collect()
+
+
+def _run_queries(c, sm, items, paths, queries, toks, mx, stage):
+    for qi, ((tpl, q), tk) in enumerate(zip(queries, toks)):
+        sig = [query_kinds(tpl)] + ([stage] if stage else [])
+        tag = f'{stage + " " if stage else ""}query {qi}: '
+        result = run_query(c, sm, q, sig, tag)
+        if result is None:
+            continue
+        c.reach('queried')
+        if result:
+            c.reach('some_file_returned')
+        if not c.symbolic:
+            c.note(tag, 'returned', sorted(it.get_query_path() for it in result))
+        judge(c, items, paths, result, tk, mx, sig, tag)
+
+
+def _ask(c, sm, disk, dirs, all_paths, queries, toks, mx, stage, history):
+    """the files on disk now, looked up in SharedDirectory.items, and the queries judged against them.  All references
+    to SharedItem objects are locals of this function."""
+    found = disk.live_items()
+    # indexing half, only as far as the query needs it: every file on disk is in exactly one directory's items
+    c.check(all(len(h) == 1 for _, h in found) and sum(len(d.items) for d in dirs) == len(found),
+            'scan_leaves_exactly_the_files_on_disk', sig=[history] + ([stage] if stage else []))
+    items = [h[0] for _, h in found if h]
+    paths = [all_paths[i] for i, h in found if h]
+    if not c.symbolic:
+        c.note(stage, 'searchable files', [''.join(p) for p in paths], 'queries', [q for _, q in queries], 'max_results', mx)
+    _run_queries(c, sm, items, paths, queries, toks, mx, stage)
 
 
 # ------------------------------------------------------------------------------
@@ -1065,6 +1138,8 @@ def jobs(tier):
         out.append(_qjob('*b', ['~~', '~~', '~'], 'two', history='vanished'))
         out.append(_qjob('a b', ['~~', '~', '~~~'], 'two', history='appeared'))
         out.append(_qjob('a', ['~~', '~~'], 'two', history='changed'))
+        out.append(_qjob('*a', ['~~', '~~'], 'flat', history='changed'))
+        out.append(_qjob('a -b', ['~~', '~~'], 'sub', history='vanished'))
     else:
         for q in QUERIES_THOROUGH:
             for names in (['~~', '~~~'], ['~~~', '~~~'], ['~~~~', '~~'], ['~~', '~~', '~~'], ['~~ ~~', '~~~']):
